@@ -9,9 +9,11 @@ import (
 	"fmt"
 	"io"
 	"net"
+	"os"
 	"time"
 
 	"verifsim/sim/rt"
+	"verifsim/sim/simtime"
 )
 
 // Fragmentation policies.
@@ -85,6 +87,22 @@ type stream struct {
 	stats     *Stats
 	timerSet  bool
 	lastEmpty bool
+	rdl, wdl  time.Duration // read / write deadline in virtual time (0 = none)
+}
+
+// expired parks-with-deadline support: reports whether the deadline dl has
+// passed; otherwise arranges for the calling task to be woken when it does.
+func expired(dl time.Duration) bool {
+	if dl == 0 {
+		return false
+	}
+	if rt.Now() >= dl {
+		rt.Reach("net.deadline-exceeded")
+		return true
+	}
+	t := rt.Current()
+	rt.After(dl-rt.Now(), func() { rt.Ready(t) })
+	return false
 }
 
 // Stats counts what actually happened on a pipe (reach probes).
@@ -212,6 +230,9 @@ func (s *stream) write(p []byte) (int, error) {
 			}
 		}
 		if space <= 0 {
+			if expired(s.wdl) {
+				return off, os.ErrDeadlineExceeded
+			}
 			s.stats.WriterBlocked++
 			s.wwait = append(s.wwait, rt.Current())
 			rt.Park("pipe write " + s.name)
@@ -351,6 +372,9 @@ func (s *stream) read(p []byte) (int, error) {
 			wake(&s.wwait)
 			return n, nil
 		}
+		if expired(s.rdl) {
+			return 0, os.ErrDeadlineExceeded
+		}
 		if len(s.segs) > 0 {
 			// data in flight: wait for virtual time
 			t := rt.Current()
@@ -470,13 +494,36 @@ func (e *Endpoint) LocalAddr() net.Addr { return addr(e.local) }
 // RemoteAddr implements net.Conn.
 func (e *Endpoint) RemoteAddr() net.Addr { return addr(e.remote) }
 
-// SetDeadline implements net.Conn (no code under test uses deadlines).
-func (e *Endpoint) SetDeadline(time.Time) error { return nil }
+func virtualDeadline(t time.Time) time.Duration {
+	if t.IsZero() {
+		return 0
+	}
+	d := simtime.Virtual(t)
+	if d <= 0 {
+		d = 1 // already in the past
+	}
+	return d
+}
+
+// SetDeadline implements net.Conn on the virtual clock: a blocked Read or Write
+// returns os.ErrDeadlineExceeded once the deadline has passed.
+func (e *Endpoint) SetDeadline(t time.Time) error {
+	e.SetReadDeadline(t)
+	return e.SetWriteDeadline(t)
+}
 
 // SetReadDeadline implements net.Conn.
-func (e *Endpoint) SetReadDeadline(time.Time) error { return nil }
+func (e *Endpoint) SetReadDeadline(t time.Time) error {
+	e.in.rdl = virtualDeadline(t)
+	wake(&e.in.rwait)
+	return nil
+}
 
 // SetWriteDeadline implements net.Conn.
-func (e *Endpoint) SetWriteDeadline(time.Time) error { return nil }
+func (e *Endpoint) SetWriteDeadline(t time.Time) error {
+	e.out.wdl = virtualDeadline(t)
+	wake(&e.out.wwait)
+	return nil
+}
 
 func (e *Endpoint) String() string { return fmt.Sprintf("sim(%s->%s)", e.local, e.remote) }
